@@ -115,7 +115,7 @@ theorem inv_createPool {s s' : State} {id sender desc lpt start rpb total editab
       unfold enqueue; split <;> rfl
     have hpe : (enqueue { s2 with seq := s2.seq + 1, pools := AMap.set s2.pools id np } id (start + (m : Int))).pools = AMap.set s2.pools id np := by
       unfold enqueue; split <;> rfl
-    refine ⟨by rw [hhe]; exact hnn, ?_, ?_, ?_, ?_, ?_, ?_⟩
+    refine ⟨by rw [hhe]; exact hnn, ?_, ?_, ?_, ?_, ?_, ?_, ?_⟩
     · refine poolsAll_set c2.wf hpe ⟨?_, ?_, ?_, ?_, ?_, by rw [hnp_cre]; exact hu⟩
       · rw [hnp_rules]; intro e
         have := congrArg List.length e
@@ -181,6 +181,30 @@ theorem inv_createPool {s s' : State} {id sender desc lpt start rpb total editab
       by_cases e : id = i
       · subst e; exact ⟨np, gs⟩
       · exact ⟨p2, by rw [go i e]; exact hp2⟩
+    · intro i p2 hp2 r hr
+      by_cases e : id = i
+      · subst e; rw [gs] at hp2; cases hp2
+        rw [hnp_rules] at hr
+        have hm := mem_newRules hr
+        have hgh : r.released = 0 ∧ r.refunded = 0 ∧ r.nRefund = 0 := by
+          unfold newRules at hr
+          simp only [List.mem_map] at hr
+          obtain ⟨c, _, e⟩ := hr
+          rw [← e]; exact ⟨rfl, rfl, rfl⟩
+        refine ⟨by unfold C06.RuleConserved; omega, by omega, by intro e; omega, fun _ => hgh.2.1⟩
+      · rw [go i e] at hp2
+        refine (c2.ghost i p2 hp2 r hr).transfer ?_ (by rw [hhe]; exact fun h => h)
+        unfold C06.active
+        intro hf0
+        cases hcn : (enqueue { s2 with seq := s2.seq + 1, pools := AMap.set s2.pools id np } id (start + (m : Int))).queue.contains (p2.endH, i) with
+        | false => rfl
+        | true =>
+          have hmq : (p2.endH, i) ∈ (enqueue { s2 with seq := s2.seq + 1, pools := AMap.set s2.pools id np } id (start + (m : Int))).queue := by simpa using hcn
+          rw [mem_enqueue] at hmq
+          rcases hmq with hmq | hmq
+          · have : s2.queue.contains (p2.endH, i) = true := by simpa using hmq
+            rw [this] at hf0; cases hf0
+          · exact absurd (Prod.mk.inj hmq).2.symm e
   · rw [moduleAccount_iff]
     intro d
     have g0 := (moduleAccount_iff s).mp hi.modacc d
